@@ -1,6 +1,7 @@
 (** IEEE-754 binary64 coordinates (src/header/lat_lng.rs) with Flocq:
     read:  f64::from(i32) / LAT_LONG_FACTOR
-    write: (field * LAT_LONG_FACTOR).round() as i32        (Rust's saturating, NaN -> 0 cast) *)
+    write: (field * LAT_LONG_FACTOR).round(), corrected at exact halves by the sign of the
+           multiplication error, then `as i32`                 (Rust's saturating, NaN -> 0 cast) *)
 From Coq Require Import ZArith.
 From Flocq Require Import Core BinarySingleNaN Binary Bits.
 Require Import PM.Params.
@@ -29,7 +30,25 @@ Definition cast_i32 (f : f64) : Z :=
   end.
 (** [f64::round]: to nearest, ties away from zero *)
 Definition round_away (f : f64) : f64 := BinarySingleNaN.Bnearbyint mode_NA f.
+Definition F_half : f64 := BinarySingleNaN.Bdiv mode_NE (of_Z 1) (of_Z 2).
+Definition F_zero : f64 := of_Z 0.
+Definition F_one : f64 := of_Z 1.
+(** [write_lat_lon]: the product is rounded; when it lies exactly halfway between two integers the
+    sign of the multiplication's error (obtained exactly by a fused multiply-add) says on which side
+    the exact product lies. *)
 Definition stored_of_deg (d : f64) : Z :=
+  let p := BinarySingleNaN.Bmult mode_NE d FAC in
+  let r := round_away p in
+  if BinarySingleNaN.Beqb (BinarySingleNaN.Babs (BinarySingleNaN.Bminus mode_NE r p)) F_half then
+    let e := BinarySingleNaN.Bfma mode_NE d FAC (BinarySingleNaN.Bopp p) in
+    if andb (BinarySingleNaN.Bltb e F_zero) (BinarySingleNaN.Bltb F_zero p) then
+      cast_i32 (BinarySingleNaN.Bminus mode_NE r F_one)
+    else if andb (BinarySingleNaN.Bltb F_zero e) (BinarySingleNaN.Bltb p F_zero) then
+      cast_i32 (BinarySingleNaN.Bplus mode_NE r F_one)
+    else cast_i32 r
+  else cast_i32 r.
+(** the behaviour before the second fix: the rounded product alone decides (double rounding, D7) *)
+Definition stored_of_deg_double_rounding (d : f64) : Z :=
   cast_i32 (round_away (BinarySingleNaN.Bmult mode_NE d FAC)).
 (** the behaviour before the fix (truncation), kept to state what was wrong *)
 Definition stored_of_deg_trunc (d : f64) : Z :=
